@@ -333,6 +333,7 @@ type request struct {
 	Hdr       []hv
 	Body      []byte
 	W         *writerVal // the ResponseWriter the server is handed; nil = the plain recorder
+	D         *delivVal  // how the body is announced and handed out (delivery.go); nil = Content-Length, all at once
 }
 
 // httpRequest builds the literal *http.Request.
@@ -347,6 +348,9 @@ func (rq *request) httpRequestOrd(ctx context.Context, ord int) *http.Request {
 		Method: rq.Method, URL: &url.URL{Path: rq.Path}, Proto: "HTTP/1.1", ProtoMajor: 1, ProtoMinor: 1,
 		Header: http.Header{}, Body: io.NopCloser(bytes.NewReader(rq.Body)), ContentLength: int64(len(rq.Body)),
 		Host: "example.test", RemoteAddr: "192.0.2.1:1234", RequestURI: rq.Path,
+	}
+	if rq.D != nil {
+		rq.D.apply(r, rq.Body)
 	}
 	r = r.WithContext(ctx)
 	if rq.CTPresent {
@@ -401,6 +405,9 @@ func (c *Case) request() *request {
 	rq := &request{Method: c.Method, Path: c.Path, CT: c.CT, CTPresent: c.CTPresent, Hdr: c.Hdr, Body: b}
 	if c.Writer != "" && c.Writer != writers[0].Name {
 		rq.W = writerByName(c.Writer)
+	}
+	if c.Delivery != "" && c.Delivery != delivs[0].Name {
+		rq.D = delivByName(c.Delivery)
 	}
 	return rq
 }
